@@ -183,6 +183,10 @@ def _check_main(ctx, rep: Report):
         fi = ctx.p.find_function(q)
         src = ast.unparse(fi.node)
         hits = [f for f in forbidden if f in src]
+        # what is computed while the class is being bootstrapped must not depend on the momentary state of *other* classes
+        # (a parent bootstrapped concurrently publishes its metadata before its methods are registered):
+        if q.endswith(".build_method") or q in ("spec_class.register_methods", "spec_class.register_method"):
+            hits += [f for f in (".mro()", "__mro__", ".invalidation_map") if f in src]
         rep.oblige("C19.ORD", q, not hits, str(hits))
         if hits:
             rep.violate(Violation("C19.ORD", f"C19.ORD|{q}|{hits[0]}", f"{q} (runs under the bootstrap lock) resolves `{hits[0]}`: this can trigger the bootstrap of an unrelated class while holding the lock (lock-order inversion between two mutually referencing classes)",
@@ -227,6 +231,25 @@ def _check_main(ctx, rep: Report):
     for n, b_ in bad[:3]:
         rep.violate(Violation("C19.PUB", f"C19.PUB|{b_[:60]}", f"spec_class.bootstrap: {b_} changes the metadata after `{ast.unparse(pub)}` published it: a concurrent reader of the class's metadata observes a half-assembled specification",
                               f"{rel}:{n.lineno}", "spec_class.bootstrap"))
+
+    # ---- MEMO: the built method of a descriptor is memoised with publish-last discipline
+    rep.rules["C19.MEMO"] = "MethodDescriptor.method: cached_property, or a memo whose 'built' flag is set after the value is stored"
+    mdc = ctx.p.find_class("MethodDescriptor")
+    c_, m_ = ctx.p.lookup_method(mdc, "method")
+    if not isinstance(m_, list):
+        raise AnalysisError("C19.MEMO: MethodDescriptor.method not found")
+    mnode = m_[0].node
+    decos = [ast.unparse(d_) for d_ in mnode.decorator_list]
+    bad_memo = []
+    if not any("cached_property" in d_ for d_ in decos):
+        builds = [n for n in ast.walk(mnode) if isinstance(n, ast.Assign) and "build_method()" in ast.unparse(n.value)]
+        flags = [n for n in ast.walk(mnode) if isinstance(n, ast.Assign) and isinstance(n.value, ast.Constant) and n.value.value is True
+                 and isinstance(n.targets[0], ast.Attribute)]
+        if builds and any(f_.lineno < builds[0].lineno for f_ in flags):
+            bad_memo.append(f"`{ast.unparse(flags[0])}` marks the method as built before `{ast.unparse(builds[0])[:50]}` has produced it: a second thread (or the accessing descriptor protocol) obtains None and plants it on the class")
+    rep.oblige("C19.MEMO", "MethodDescriptor.method", not bad_memo, "; ".join(bad_memo))
+    for b_ in bad_memo:
+        rep.violate(Violation("C19.MEMO", "C19.MEMO|flag-before-value", f"MethodDescriptor.method: {b_}", f"{m_[0].module.relpath}:{mnode.lineno}", "MethodDescriptor.method"))
 
     # ---- DIS / IDEM
     rep.rules["C19.DIS"] = "dissolution target and value"
